@@ -52,7 +52,11 @@ static Node *contract(ParseState &ps, int nt) {
   else if (nt == NT_VALUE) null_result = !first;
   else if (NT_NULLABLE[nt]) null_result = !first ? true : nondet_bool();
   else null_result = err ? nondet_bool() : false;
+#ifdef PB_PROVENANCE
+  return null_result ? (Node *)NULL : ps.a.mk(Node::Type::SPLIT, g_toks->__at(start).line, g_toks->__at(start).file, "", NULL, NULL);
+#else
   return null_result ? (Node *)NULL : ps.a.mk(Node::Type::SPLIT, 1, "m", "", NULL, NULL);
+#endif
 }
 // environment: token_string() only formats diagnostics (defined in scan.cpp, which is not part of these obligations)
 std::string Theo::token_string(Theo::Token::Type) { return "t"; }
@@ -98,6 +102,9 @@ static void sym_window(std::vector<Token> &toks, int &at) {
     if (i == 0 && PB_FIRST_KIND >= 0) k = PB_FIRST_KIND;
     if (i == 0 && PB_FIRST_KIND == -1) ASSUME(k == 0 || !in_mask(g_first_mask, k));
     Token t; t.t = (Token::Type)k; t.text = "x"; t.file = "m"; t.line = 1 + i;
+#ifdef PB_PROVENANCE
+    if (nondet_bool()) t.file = "n";      // tokens of two files mixed in one stream (includes, macro bodies defined elsewhere); line i+1 identifies the token
+#endif
     toks.u.d[i] = t; CEX_kind[i] = k;
   }
   toks.n = n;
@@ -168,6 +175,15 @@ static void obligations(int nt, GF real) {
   unsigned long follow = NT_FOLLOW[nt];
   if (nt == NT_P || nt == NT_MOREP || nt == NT_S) follow &= ~(1UL << Token::PROGSEP);     // greedy: a following ';' belongs to the innermost statement sequence
   if (row >= 0 && sp && stub_errors == 0 && cof && in_mask(follow, kind_at(end))) ASSERT(own == 0, "C04: a correct instance of the construct followed by a token of its FOLLOW set is accepted without error");
+#ifdef PB_PROVENANCE
+  { bool prov = true;
+    for (int k = 0; k < (int)decltype(a.all_allocated_nodes)::FCAP; k++) if (k < (int)a.all_allocated_nodes.size()) {
+      Node *nd = a.all_allocated_nodes[k]; int L = nd->line;
+      bool okl = L >= 1 && L <= g_n;
+      prov = prov && okl && nd->file == toks.__at(okl ? L - 1 : 0).file;
+    }
+    ASSERT(prov, "C08: every tree node carries the file and the line of one and the same token of the source (break locations are derived from them: no location without a token)"); }
+#endif
   a.clear();     // C02: with --memory-leak-check every node allocated outside the registry of the tree shows up as a leak
   ASSERT(0, "WITNESS: end of obligations reachable");
 }
